@@ -33,6 +33,28 @@ func containsGo(fn *ssa.Function) bool {
 	return false
 }
 
+// startsGoroutines: fn starts goroutines itself, or hands one of its function literals to an in-scope helper that
+// does (a helper that owns the loop, the goroutines and the join).
+func startsGoroutines(c *core.Ctx, fn *ssa.Function) bool {
+	if containsGo(fn) {
+		return true
+	}
+	for _, f := range core.WithAnon(fn) {
+		for _, ci := range core.Calls(f) {
+			cal := ci.Common().StaticCallee()
+			if cal == nil || !c.InScope(cal) || !containsGo(cal) {
+				continue
+			}
+			for _, a := range ci.Common().Args {
+				if lit := core.ClosureOf(a); lit != nil && lit.Parent() != nil && core.TopLevel(lit) == core.TopLevel(fn) {
+					return true
+				}
+			}
+		}
+	}
+	return false
+}
+
 type bootstrapSubject struct {
 	fn       *ssa.Function   // the bootstrap routine
 	register *ssa.Function   // appends a post-processor to the registration list
@@ -66,7 +88,7 @@ func findBootstrap(c *core.Ctx) (*bootstrapSubject, string) {
 	seenPar := map[*ssa.Function]bool{}
 	for _, site := range c.CallSites(func(com *ssa.CallCommon) bool { return core.IsInvoke(com, ro.DRPPPostProcess) }) {
 		h := core.TopLevel(site.Parent())
-		for depth := 0; depth < 3 && h != nil && !containsGo(h); depth++ {
+		for depth := 0; depth < 3 && h != nil && !startsGoroutines(c, h); depth++ {
 			// the goroutine body may be a named function: look at its only caller
 			callers := c.Callers(h)
 			if len(callers) != 1 {
@@ -74,7 +96,7 @@ func findBootstrap(c *core.Ctx) (*bootstrapSubject, string) {
 			}
 			h = core.TopLevel(callers[0])
 		}
-		if h != nil && h != s.fn && core.PkgOf(h) == core.PkgOf(s.fn) && containsGo(h) && !seenPar[h] {
+		if h != nil && h != s.fn && core.PkgOf(h) == core.PkgOf(s.fn) && startsGoroutines(c, h) && !seenPar[h] {
 			seenPar[h] = true
 			s.parallel = append(s.parallel, h)
 		}
